@@ -16,8 +16,20 @@ namespace verif {
         int v;
         yielding_atomic_int() : v( 0 ) {}
         yielding_atomic_int( int x ) : v( x ) {}
-        int  load() const { mc::Sched::point(); return v; }
-        void store( int x ) { mc::Sched::point(); v = x; }
+        int  load( std::memory_order = std::memory_order_seq_cst ) const { mc::Sched::point(); return v; }
+        void store( int x, std::memory_order = std::memory_order_seq_cst ) { mc::Sched::point(); v = x; }
+        // read-modify-write operations of std::atomic<int> are one atomic step each
+        int fetch_sub( int d ) { mc::Sched::point(); int o = v; v -= d; return o; }
+        int fetch_or( int d )  { mc::Sched::point(); int o = v; v |= d; return o; }
+        int fetch_and( int d ) { mc::Sched::point(); int o = v; v &= d; return o; }
+        int fetch_xor( int d ) { mc::Sched::point(); int o = v; v ^= d; return o; }
+        int operator++()      { return fetch_add( 1 ) + 1; }
+        int operator++( int ) { return fetch_add( 1 ); }
+        int operator--()      { return fetch_sub( 1 ) - 1; }
+        int operator--( int ) { return fetch_sub( 1 ); }
+        int operator+=( int d ) { return fetch_add( d ) + d; }
+        int operator-=( int d ) { return fetch_sub( d ) - d; }
+        bool is_lock_free() const { return true; }
         operator int() const { return load(); }
         yielding_atomic_int& operator=( int x ) { store( x ); return *this; }
         int fetch_add( int d ) { mc::Sched::point(); int o = v; v += d; return o; }
